@@ -43,6 +43,9 @@ def isas_special(did, k):
         [variant("Reserved", dis=True), variant("Only"), variant("Gone", "tuple", [field("i32")], dis=True)],
         [variant("Utf8To16"), variant("Sha2With512", "tuple", [field("i32"), field("String")]), variant("Ipv4In6", "tuple", [field("u8")]), variant("Latin1")],
         [variant("A1B2C3", "tuple", [field("u8"), field("u8"), field("u8")]), variant("X1Y2", "named", [field("u8", "x")])],
+        [variant("Empty"), variant("Circle", "tuple", [field("u8")]), variant("Hidden", "tuple", [field("u16")], dis=True),
+         variant("Square", "tuple", [field("i32"), field("String")])],
+        [variant("Z\u00fcrich2", "tuple", [field("u8")]), variant("Caf\u00e92"), variant("M\u00fcnchen10", "named", [field("u8", "x")])],
         [variant("Solo", "tuple", [])],
         [variant("Solo")],
     ]
